@@ -1769,6 +1769,868 @@ GENERATORS["Biccs"] = gen_biccs
 
 
 # ---------------------------------------------------------------------------------------------------------
+# order_gfa: count_sn, name_comps and the loop over the requested chromosomes of run_order_gfa (C06, C07, C18)
+
+_ORDER_RUN_PREAMBLE = """import Gaftools.Model.Order
+/-! generated by harness/translate.py from gaftools/cli/order_gfa.py : count_sn, name_comps and the loop over the requested
+    chromosomes of run_order_gfa, translated statement by statement — do not edit -/
+set_option linter.unusedVariables false
+namespace Gaftools.Gen.OrderRun
+open Gaftools.Gfa Gaftools.Algo Gaftools.View Gaftools.Order
+
+/-! ### fixed vocabulary: what the Python objects are in Lean -/
+
+/-- `d[k] += x` on a `defaultdict(int)` (the dict in insertion order) -/
+def dictAdd (d : List (String × Nat)) (k : String) (x : Nat) : List (String × Nat) :=
+  if d.any (·.1 == k) then d.map (fun e => if e.1 == k then (e.1, e.2 + x) else e) else d ++ [(k, 0 + x)]
+
+/-- `d[k] = v` on the dict of named components, kept as a duplicate-free association list whose newest assignment is last
+    (`run_order_gfa` uses this dict only through lookups and its key set; the translator checks that) -/
+def dictPut (d : List (String × List V)) (k : String) (v : List V) : List (String × List V) :=
+  d.filter (·.1 != k) ++ [(k, v)]
+
+/-- `d[k]`, `none` = KeyError -/
+def dictGet (d : List (String × List V)) (k : String) : Option (List V) := (d.find? (·.1 == k)).map (·.2)
+
+/-- `graph.nodes[id].tags[t.name] = (t.ty, t.val)` -/
+def setTag (g : Graph) (id : V) (t : Tag) : Graph :=
+  { g with nodes := g.nodes.map (fun n => if n.id == id then { n with tags := tagSet n.tags t } else n) }
+
+/-- the five values `decompose_and_order` returns when they are not all `None` -/
+structure Dao where
+  scaffold_nodes : List V
+  inside_nodes : List V
+  node_order : List (V × Int × Int)
+  next_bo : Int
+  bubble_count : Int
+deriving Repr
+
+/-- what the loop does to the outside world, in program order -/
+inductive Event where
+  | openW (path : String)
+  | write (path : String) (fields : List String)
+  | writeGfa (path : String) (graph : Graph) (set_of_nodes : List V) (append order_bo : Bool)
+  | close (path : String)
+deriving Repr, DecidableEq
+
+/-- what the loop reads and does not change: the named components, `decompose_and_order` as a function of its four arguments
+    (`.error` = it raises, `.ok none` = the all-`None` tuple), and the pieces of the file names -/
+structure Env where
+  components : List (String × List V)
+  dao : Graph → List V → String → Int → Except String (Option Dao)
+  outdir : String
+  sep : String
+  stemDot : String
+  stemCut : String
+
+/-- the variables the loop over the chromosomes carries from one iteration to the next, and the event log -/
+structure RunSt where
+  graph : Graph
+  bo : Int
+  out_gfa : List String
+  out_csv : List String
+  log : List Event
+deriving Repr, DecidableEq
+"""
+
+_OR_LEAN_TYPE = {"int": "Int", "nat": "Nat", "str": "String", "set": "List V", "list_str": "List String", "order": "List (V × Int × Int)",
+                 "counts": "List (String × Nat)", "comps": "List (String × List V)", "graph": "Graph", "log": "List Event",
+                 "list_set": "List (List V)", "item": "String × Nat", "snfun": "V → Option String"}
+_OR_DAO_FIELDS = [("scaffold_nodes", "set"), ("inside_nodes", "set"), ("node_order", "order"), ("next_bo", "int"), ("bubble_count", "int")]
+_OR_RUNST = ["graph", "bo", "out_gfa", "out_csv", "log"]
+
+
+class _NeedsExcept(Exception):
+    pass
+
+
+def _or_is_log_call(e):
+    return isinstance(e, ast.Call) and (ast.unparse(e.func).startswith("logger.") or ast.unparse(e.func).startswith("logging."))
+
+
+def _or_lstr(v):
+    return '"%s"' % v.replace("\\", "\\\\").replace('"', '\\"').replace("\t", "\\t").replace("\n", "\\n")
+
+
+class _Imp:
+    """statement-by-statement translation of a loop body into a Lean state-passing function.
+    Python variables become `let`-bound Lean names (a reassignment shadows); the loop state is the tuple of the variables
+    that are assigned in the body and were defined before the loop; everything the body reads from outside and does not change
+    becomes a parameter. `pure` bodies are plain functions, others return `Except String` (`raise`, KeyError)."""
+
+    def __init__(self, gen, types, atoms, handles=None, aliases=None, pure=True, names=None):
+        self.gen = gen                # the generator context (collects the loop-body definitions, csv format, loop names)
+        self.types = dict(types)      # python name -> type tag
+        self.atoms = dict(atoms)      # python name / unparsed expression -> (lean term, type)
+        self.handles = dict(handles or {})   # file handle -> python name holding the path
+        self.aliases = dict(aliases or {})   # node variable -> (graph variable, lean key term)
+        self.pure = pure
+        self.refs = []                # outer names referenced, in order
+        self.bound = set()            # names bound inside this body
+        self.names = names            # stack of loop-body names still to be given out
+
+    # ---- expressions
+    def ref(self, name):
+        if name not in self.bound and name not in self.refs:
+            self.refs.append(name)
+
+    def ex(self, e):
+        u = ast.unparse(e)
+        if u in self.atoms:
+            return self.atoms[u]
+        if isinstance(e, ast.Name):
+            if e.id not in self.types:
+                raise Untranslatable("name %s is not defined here" % e.id)
+            if self.types[e.id] == "none":
+                raise Untranslatable("%s is None here" % e.id)
+            self.ref(e.id)
+            return e.id, self.types[e.id]
+        if isinstance(e, ast.Constant) and isinstance(e.value, str):
+            return _or_lstr(e.value), "str"
+        if isinstance(e, ast.Constant) and isinstance(e.value, bool):
+            return ("true" if e.value else "false"), "bool"
+        if isinstance(e, ast.Constant) and isinstance(e.value, int):
+            return "(%d : %s)" % (e.value, self.gen.lit), {"Nat": "nat", "Int": "int"}[self.gen.lit]
+        if isinstance(e, ast.BinOp) and isinstance(e.op, ast.Add):
+            (l, tl), (r, tr) = self.ex(e.left), self.ex(e.right)
+            if tl == tr == "str":
+                return "%s ++ %s" % (l, r), "str"
+            if tl == tr and tl in ("int", "nat"):
+                return "(%s + %s)" % (l, r), tl
+            raise Untranslatable("+ on %s and %s" % (tl, tr))
+        if isinstance(e, ast.Call) and isinstance(e.func, ast.Name) and e.func.id == "sorted" and len(e.args) == 1 and not e.keywords:
+            a, t = self.ex(e.args[0])
+            if t != "set":
+                raise Untranslatable("sorted() of a %s" % t)
+            return "(sortStrings %s)" % a, "list_str"
+        if (isinstance(e, ast.Call) and isinstance(e.func, ast.Name) and e.func.id == "count_sn" and len(e.args) == 2 and not e.keywords
+                and self.types.get(ast.unparse(e.args[0])) == "graph_ro"):
+            a, t = self.ex(e.args[1])
+            if t != "set":
+                raise Untranslatable("count_sn of a %s" % t)
+            self.gen.uses_count_sn = True
+            self.ref("sn")
+            return "countSn sn %s" % a, "counts"
+        if isinstance(e, ast.Call) and isinstance(e.func, ast.Attribute) and e.func.attr == "items" and not e.args:
+            a, t = self.ex(e.func.value)
+            if t == "counts":
+                return a, "counts_items"
+        # graph[n].tags["SN"][1]  (read-only graph of count_sn)  /  node.tags["SN"][1]
+        if (isinstance(e, ast.Subscript) and isinstance(e.slice, ast.Constant) and e.slice.value == 1 and isinstance(e.value, ast.Subscript)
+                and isinstance(e.value.slice, ast.Constant) and isinstance(e.value.slice.value, str)):
+            tags = self.tags_of(e.value.value)
+            if tags is not None:
+                return "((%s).getD \"\")" % tags(e.value.slice.value), "str"
+        raise Untranslatable("expression " + u)
+
+    def tags_of(self, e):
+        """`<x>.tags` -> a function tag name -> Lean term of type Option String (the value of that tag)"""
+        if not (isinstance(e, ast.Attribute) and e.attr == "tags"):
+            return None
+        o = e.value
+        if isinstance(o, ast.Name) and self.types.get(o.id) == "node":
+            self.ref(o.id)
+            return lambda name: "tagVal %s.tags %s" % (o.id, _or_lstr(name))
+        if isinstance(o, ast.Subscript) and isinstance(o.value, ast.Name) and self.types.get(o.value.id) == "graph_ro":
+            k, t = self.ex(o.slice)
+            if t != "str":
+                raise Untranslatable("graph[%s]" % t)
+
+            def f(name):
+                if name != "SN":
+                    raise Untranslatable("tag %s of the read-only graph" % name)
+                self.ref("sn")
+                return "sn %s" % k
+            return f
+        return None
+
+    def cond(self, e):
+        """-> Lean Bool term, or the Python constants True / False when the test is decided at translation time"""
+        if isinstance(e, ast.UnaryOp) and isinstance(e.op, ast.Not):
+            c = self.cond(e.operand)
+            return (not c) if isinstance(c, bool) else "(!%s)" % c
+        if isinstance(e, ast.BoolOp):
+            cs = [self.cond(x) for x in e.values]
+            if any(isinstance(c, bool) for c in cs):
+                raise Untranslatable("constant inside and/or")
+            return "(" + (" && " if isinstance(e.op, ast.And) else " || ").join(cs) + ")"
+        if isinstance(e, ast.Name):
+            t = self.types.get(e.id)
+            if t == "none":
+                return False
+            a, t = self.ex(e)
+            if t in ("set", "list_str"):
+                return "(!%s.isEmpty)" % a
+            raise Untranslatable("truth value of a %s" % t)
+        if isinstance(e, ast.Compare) and len(e.ops) == 1:
+            l, r, op = e.left, e.comparators[0], type(e.ops[0])
+            if op in (ast.In, ast.NotIn):
+                tags = self.tags_of(r)
+                if tags is not None and isinstance(l, ast.Constant) and isinstance(l.value, str):
+                    c = "(%s).isSome" % tags(l.value)
+                else:
+                    (a, ta), (b, tb) = self.ex(l), self.ex(r)
+                    if not (ta == "str" and tb == "set"):
+                        raise Untranslatable("%s in %s" % (ta, tb))
+                    c = "(%s.contains %s)" % (b, a)
+                return c if op is ast.In else "(!%s)" % c
+            (a, ta), (b, tb) = self.ex(l), self.ex(r)
+            if ta != tb:
+                raise Untranslatable("comparison of %s with %s" % (ta, tb))
+            if op in (ast.Eq, ast.NotEq) and ta in ("str", "int", "nat"):
+                c = "(%s == %s)" % (a, b)
+                return c if op is ast.Eq else "(!%s)" % c
+            sym = {ast.Lt: "<", ast.Gt: ">", ast.LtE: "≤", ast.GtE: "≥"}.get(op)
+            if sym and ta in ("int", "nat"):
+                return "decide (%s %s %s)" % (a, sym, b)
+        raise Untranslatable("test " + ast.unparse(e))
+
+    # ---- statements
+    def none_loads(self, node):
+        return [n.id for n in ast.walk(node) if isinstance(n, ast.Name) and isinstance(n.ctx, ast.Load) and self.types.get(n.id) == "none"]
+
+    def bind(self, name, t):
+        self.types[name] = t
+        self.bound.add(name)
+        self.atoms.pop(name, None)
+
+    def partial(self):
+        if self.pure:
+            raise _NeedsExcept()
+
+    def log(self, pad, event):
+        self.ref("log")
+        self.bind("log", "log")
+        self.gen.did_io = True
+        return "%slet log := log ++ [%s]\n" % (pad, event)
+
+    def block(self, stmts, ind, fin):
+        pad = " " * ind
+        if not stmts:
+            return pad + fin(self)
+        st, rest = stmts[0], stmts[1:]
+        u = ast.unparse(st)
+        if isinstance(st, ast.Pass) or (isinstance(st, ast.Expr) and (isinstance(st.value, ast.Constant) or _or_is_log_call(st.value))):
+            return self.block(rest, ind, fin)
+        if isinstance(st, ast.Continue):
+            return pad + fin(self)
+        if not isinstance(st, (ast.If, ast.For)) and self.none_loads(st):
+            # a statement that reads one of the values that are None here: a plain copy hands the None on, an arithmetic /
+            # subscript / membership use raises TypeError (whatever was done before is lost with the exception)
+            if (isinstance(st, ast.Assign) and len(st.targets) == 1 and isinstance(st.targets[0], ast.Name) and isinstance(st.value, ast.Name)):
+                self.bind(st.targets[0].id, "none")
+                return self.block(rest, ind, fin)
+            certain = isinstance(st, ast.AugAssign) and isinstance(st.value, ast.Name) and self.types.get(st.value.id) == "none"
+            for n in ast.walk(st):
+                if isinstance(n, ast.Subscript) and isinstance(n.value, ast.Name) and self.types.get(n.value.id) == "none":
+                    certain = True
+            if certain:
+                self.partial()
+                return pad + '.error "TypeError"'
+            raise Untranslatable("a None value is used in " + u[:60])
+        if isinstance(st, ast.Raise):
+            self.partial()
+            exc = st.exc.func if isinstance(st.exc, ast.Call) else st.exc
+            return "%s.error %s" % (pad, _or_lstr(ast.unparse(exc)))
+        if isinstance(st, ast.Return):
+            return pad + self.gen.ret(self, st)
+        if isinstance(st, ast.If):
+            return self.if_stmt(st, rest, ind, fin)
+        if isinstance(st, ast.For):
+            return self.for_stmt(st, rest, ind, fin)
+        if isinstance(st, ast.AugAssign) and isinstance(st.op, ast.Add):
+            t = st.target
+            if isinstance(t, ast.Name) and t.id in self.gen.log_only:
+                return self.block(rest, ind, fin)
+            if isinstance(t, ast.Name):
+                (a, ta), (b, tb) = self.ex(t), self.ex(st.value)
+                if ta != tb or ta not in ("int", "nat"):
+                    raise Untranslatable(u)
+                self.bind(t.id, ta)
+                return "%slet %s := %s + %s\n%s" % (pad, t.id, a, b, self.block(rest, ind, fin))
+            if isinstance(t, ast.Subscript) and isinstance(t.value, ast.Name) and self.types.get(t.value.id) == "counts":
+                d = t.value.id
+                self.ref(d)
+                (k, tk), (v, tv) = self.ex(t.slice), self.ex(st.value)
+                if tk != "str" or tv != "nat":
+                    raise Untranslatable(u)
+                self.bind(d, "counts")
+                return "%slet %s := dictAdd %s %s %s\n%s" % (pad, d, d, k, v, self.block(rest, ind, fin))
+        if isinstance(st, ast.Assign) and len(st.targets) == 1:
+            return self.assign(st, rest, ind, fin)
+        if isinstance(st, ast.Expr) and isinstance(st.value, ast.Call):
+            return self.call_stmt(st.value, rest, ind, fin)
+        raise Untranslatable("statement " + u[:80])
+
+    def if_stmt(self, st, rest, ind, fin):
+        pad = " " * ind
+        # `if … : x = a  elif … : x = b  else: x = c`  ->  let x := if … then a else if … then b else c
+        chain, cur = [], st
+        while True:
+            if not (len(cur.body) == 1 and isinstance(cur.body[0], ast.Assign) and len(cur.body[0].targets) == 1
+                    and isinstance(cur.body[0].targets[0], ast.Name)):
+                chain = None
+                break
+            chain.append((cur.test, cur.body[0]))
+            if len(cur.orelse) == 1 and isinstance(cur.orelse[0], ast.If):
+                cur = cur.orelse[0]
+                continue
+            if (len(cur.orelse) == 1 and isinstance(cur.orelse[0], ast.Assign) and len(cur.orelse[0].targets) == 1
+                    and isinstance(cur.orelse[0].targets[0], ast.Name)):
+                chain.append((None, cur.orelse[0]))
+            else:
+                chain = None
+            break
+        if chain and len({a.targets[0].id for _, a in chain}) == 1:
+            name = chain[0][1].targets[0].id
+            parts, ty = [], None
+            for test, a in chain:
+                v, t = self.ex(a.value)
+                if ty not in (None, t):
+                    raise Untranslatable("branches of different type assign " + name)
+                ty = t
+                if test is None:
+                    parts.append(v)
+                else:
+                    c = self.cond(test)
+                    if isinstance(c, bool):
+                        raise Untranslatable("constant test")
+                    parts.append("if %s then %s else" % (c, v))
+            self.bind(name, ty)
+            return "%slet %s := %s\n%s" % (pad, name, " ".join(parts), self.block(rest, ind, fin))
+        c = self.cond(st.test)
+        if c is True:
+            return self.block(list(st.body) + rest, ind, fin)
+        if c is False:
+            return self.block(list(st.orelse) + rest, ind, fin)
+        a, b = self.fork(), self.fork()
+        then = a.block(list(st.body) + rest, ind + 2, fin)
+        els = b.block(list(st.orelse) + rest, ind + 2, fin)
+        return "%sif %s then\n%s\n%selse\n%s" % (pad, c, then, pad, els)
+
+    def fork(self):
+        o = _Imp(self.gen, self.types, self.atoms, self.handles, self.aliases, self.pure, self.names)
+        o.bound = set(self.bound)
+        o.refs = self.refs          # shared: references are collected across branches
+        return o
+
+    def assign(self, st, rest, ind, fin):
+        pad = " " * ind
+        t, v = st.targets[0], st.value
+        u = ast.unparse(st)
+        cont = lambda: self.block(rest, ind, fin)   # noqa: E731
+        if isinstance(t, ast.Name):
+            if t.id in self.gen.log_only:
+                return cont()
+            # containers
+            if ast.unparse(v) == "defaultdict(int)":
+                self.bind(t.id, "counts")
+                return "%slet %s : %s := []\n%s" % (pad, t.id, _OR_LEAN_TYPE["counts"], cont())
+            if ast.unparse(v) in ("dict()", "{}"):
+                self.bind(t.id, "comps")
+                return "%slet %s : %s := []\n%s" % (pad, t.id, _OR_LEAN_TYPE["comps"], cont())
+            if ast.unparse(v) == "[]":
+                self.bind(t.id, "list_str")
+                return "%slet %s : %s := []\n%s" % (pad, t.id, _OR_LEAN_TYPE["list_str"], cont())
+            # f = open(path, "w")
+            if isinstance(v, ast.Call) and ast.unparse(v.func) == "open":
+                if not (len(v.args) == 2 and not v.keywords and isinstance(v.args[1], ast.Constant) and v.args[1].value == "w"
+                        and isinstance(v.args[0], ast.Name)):
+                    raise Untranslatable(u)
+                path, tp = self.ex(v.args[0])
+                if tp != "str":
+                    raise Untranslatable(u)
+                self.handles[t.id] = v.args[0].id
+                self.types.pop(t.id, None)
+                return self.log(pad, "Event.openW %s" % path) + cont()
+            # x = d[k]  (KeyError)
+            if isinstance(v, ast.Subscript):
+                base, tb = None, None
+                try:
+                    base, tb = self.ex(v.value)
+                except Untranslatable:
+                    pass
+                if tb == "comps":
+                    self.partial()
+                    k, tk = self.ex(v.slice)
+                    if tk != "str":
+                        raise Untranslatable(u)
+                    self.bind(t.id, "set")
+                    return "%smatch dictGet %s %s with\n%s| none => .error \"KeyError\"\n%s| some %s =>\n%s" % (pad, base, k, pad, pad, t.id, cont())
+                if ast.unparse(v.value).endswith(".nodes") and isinstance(v.value, ast.Attribute) and isinstance(v.value.value, ast.Name) \
+                        and self.types.get(v.value.value.id) == "graph":
+                    self.partial()
+                    g = v.value.value.id
+                    self.ref(g)
+                    k, tk = self.ex(v.slice)
+                    if tk != "str":
+                        raise Untranslatable(u)
+                    self.bind(t.id, "node")
+                    self.aliases[t.id] = (g, k)
+                    return "%smatch %s.find %s with\n%s| none => .error \"KeyError\"\n%s| some %s =>\n%s" % (pad, g, k, pad, pad, t.id, cont())
+            val, ty = self.ex(v)
+            self.bind(t.id, ty)
+            return "%slet %s := %s\n%s" % (pad, t.id, val, cont())
+        if isinstance(t, ast.Tuple) and all(isinstance(x, ast.Name) for x in t.elts):
+            names = [x.id for x in t.elts]
+            # a, b = x, y
+            if isinstance(v, ast.Tuple) and len(v.elts) == len(names):
+                vals = [self.ex(x) for x in v.elts]
+                for n, (_, ty) in zip(names, vals):
+                    self.bind(n, ty)
+                return "%slet (%s) := (%s)\n%s" % (pad, ", ".join(names), ", ".join(a for a, _ in vals), cont())
+            # bo_tag, no_tag = node_order[node_name]
+            if isinstance(v, ast.Subscript) and isinstance(v.value, ast.Name) and self.types.get(v.value.id) == "order" and len(names) == 2:
+                self.partial()
+                d, _ = self.ex(v.value)
+                k, tk = self.ex(v.slice)
+                if tk != "str":
+                    raise Untranslatable(u)
+                for n in names:
+                    self.bind(n, "int")
+                return "%smatch lookup %s %s with\n%s| none => .error \"KeyError\"\n%s| some (%s) =>\n%s" % (pad, k, d, pad, pad, ", ".join(names), cont())
+            # the five values of decompose_and_order
+            if isinstance(v, ast.Call) and ast.unparse(v.func) == "decompose_and_order" and len(names) == 5 and len(v.args) == 4 and not v.keywords:
+                self.partial()
+                args = [self.ex(a) for a in v.args]
+                if [ty for _, ty in args] != ["graph", "set", "str", "int"]:
+                    raise Untranslatable("arguments of decompose_and_order: %s" % [ty for _, ty in args])
+                call = "env.dao " + " ".join(a for a, _ in args)
+                a, b = self.fork(), self.fork()
+                for n in names:
+                    a.bind(n, "none")
+                none_branch = a.block(rest, ind + 2, fin)
+                lets = ""
+                for n, (f, ty) in zip(names, _OR_DAO_FIELDS):
+                    b.bind(n, ty)
+                    lets += "%s  let %s := r.%s\n" % (pad, n, f)
+                some_branch = b.block(rest, ind + 2, fin)
+                return "%smatch %s with\n%s| .error e => .error e\n%s| .ok none =>\n%s\n%s| .ok (some r) =>\n%s%s" % (
+                    pad, call, pad, pad, none_branch, pad, lets, some_branch)
+        if isinstance(t, ast.Subscript):
+            # named_comps[k] = comp
+            if isinstance(t.value, ast.Name) and self.types.get(t.value.id) == "comps":
+                d = t.value.id
+                self.ref(d)
+                (k, tk), (val, tv) = self.ex(t.slice), self.ex(v)
+                if tk != "str" or tv != "set":
+                    raise Untranslatable(u)
+                self.bind(d, "comps")
+                return "%slet %s := dictPut %s %s %s\n%s" % (pad, d, d, k, val, cont())
+            # node.tags["BO"] = ("i", bo_tag)   with node = graph.nodes[key]
+            if (isinstance(t.value, ast.Attribute) and t.value.attr == "tags" and isinstance(t.value.value, ast.Name)
+                    and t.value.value.id in self.aliases and isinstance(t.slice, ast.Constant) and isinstance(t.slice.value, str)
+                    and isinstance(v, ast.Tuple) and len(v.elts) == 2 and isinstance(v.elts[0], ast.Constant) and isinstance(v.elts[0].value, str)):
+                node = t.value.value.id
+                g, key = self.aliases[node]
+                self.ref(g)
+                self.ref(node)
+                val, tv = self.ex(v.elts[1])
+                if tv == "int":
+                    val = "toString " + val
+                elif tv != "str":
+                    raise Untranslatable(u)
+                tag = "⟨%s, %s, %s⟩" % (_or_lstr(t.slice.value), _or_lstr(v.elts[0].value), val)
+                self.bind(g, "graph")
+                self.bind(node, "node")
+                return "%slet %s := setTag %s %s %s\n%slet %s : Node := { %s with tags := tagSet %s.tags %s }\n%s" % (
+                    pad, g, g, key, tag, pad, node, node, node, tag, cont())
+        raise Untranslatable("assignment " + u[:80])
+
+    def call_stmt(self, c, rest, ind, fin):
+        pad = " " * ind
+        u = ast.unparse(c)
+        f = c.func
+        cont = lambda: self.block(rest, ind, fin)   # noqa: E731
+        if isinstance(f, ast.Attribute) and isinstance(f.value, ast.Name):
+            o = f.value.id
+            if f.attr == "append" and self.types.get(o) == "list_str" and len(c.args) == 1 and not c.keywords:
+                self.ref(o)
+                v, tv = self.ex(c.args[0])
+                if tv != "str":
+                    raise Untranslatable(u)
+                self.bind(o, "list_str")
+                return "%slet %s := %s ++ [%s]\n%s" % (pad, o, o, v, cont())
+            if o in self.handles and f.attr == "close" and not c.args and not c.keywords:
+                path, _ = self.ex(ast.Name(id=self.handles[o], ctx=ast.Load()))
+                return self.log(pad, "Event.close %s" % path) + cont()
+            if o in self.handles and f.attr == "write" and len(c.args) == 1 and not c.keywords:
+                path, _ = self.ex(ast.Name(id=self.handles[o], ctx=ast.Load()))
+                return self.log(pad, "Event.write %s [%s]" % (path, ", ".join(self.gen.csv_fields(self, c.args[0])))) + cont()
+            if self.types.get(o) == "graph" and f.attr == "write_gfa" and not c.args:
+                kw = {k.arg: k.value for k in c.keywords}
+                if sorted(kw) != ["append", "order_bo", "output_file", "set_of_nodes"]:
+                    raise Untranslatable(u)
+                self.ref(o)
+                (nodes, tn), (path, tp) = self.ex(kw["set_of_nodes"]), self.ex(kw["output_file"])
+                (ap, ta), (ob, to) = self.ex(kw["append"]), self.ex(kw["order_bo"])
+                if (tn, tp, ta, to) != ("set", "str", "bool", "bool"):
+                    raise Untranslatable(u)
+                return self.log(pad, "Event.writeGfa %s %s %s %s %s" % (path, o, nodes, ap, ob)) + cont()
+        raise Untranslatable("call " + u[:80])
+
+    # ---- loops
+    @staticmethod
+    def assigned(stmts):
+        """names a list of statements may assign or mutate (a handle's write / close, `open` and write_gfa count as `log`)"""
+        out = []
+
+        def add(n):
+            if n not in out:
+                out.append(n)
+        for st in stmts:
+            for n in ast.walk(st):
+                if isinstance(n, (ast.Assign, ast.AugAssign)):
+                    for t in (n.targets if isinstance(n, ast.Assign) else [n.target]):
+                        for x in (t.elts if isinstance(t, ast.Tuple) else [t]):
+                            while isinstance(x, (ast.Subscript, ast.Attribute)):
+                                x = x.value
+                            if isinstance(x, ast.Name):
+                                add(x.id)
+                    if isinstance(n, ast.Assign) and isinstance(n.value, ast.Call) and ast.unparse(n.value.func) == "open":
+                        add("log")
+                if isinstance(n, ast.For):
+                    for x in (n.target.elts if isinstance(n.target, ast.Tuple) else [n.target]):
+                        add(x.id)
+                if isinstance(n, ast.Call) and isinstance(n.func, ast.Attribute) and isinstance(n.func.value, ast.Name):
+                    if n.func.attr in ("append", "add", "update", "pop", "remove", "reverse", "sort", "extend"):
+                        add(n.func.value.id)
+                    if n.func.attr in ("write", "close", "write_gfa"):
+                        add("log")
+        return out
+
+    def for_stmt(self, st, rest, ind, fin):
+        pad = " " * ind
+        if st.orelse:
+            raise Untranslatable("for … else")
+        if not self.names:
+            raise Untranslatable("more loops than the translation has names for")
+        name = self.names.pop(0)
+        it, tit = self.ex(st.iter)
+        # the loop variable(s)
+        if isinstance(st.target, ast.Name) and tit in ("set", "list_str"):
+            tgt, tgt_ty, unpack = st.target.id, "V", [(st.target.id, "str", None)]
+        elif isinstance(st.target, ast.Name) and tit == "list_set":
+            tgt, tgt_ty, unpack = st.target.id, "List V", [(st.target.id, "set", None)]
+        elif isinstance(st.target, ast.Tuple) and tit == "counts_items" and len(st.target.elts) == 2 and all(isinstance(x, ast.Name) for x in st.target.elts):
+            tgt, tgt_ty = "item", "String × Nat"
+            unpack = [(st.target.elts[0].id, "str", "item.1"), (st.target.elts[1].id, "nat", "item.2")]
+        else:
+            raise Untranslatable("loop over a %s" % tit)
+        # the state: what the body assigns among what is defined here (aliases of graph nodes stand for the graph)
+        asg = self.assigned(st.body)
+        for n in list(asg):
+            if n in self.aliases and self.aliases[n][0] not in asg:
+                asg.append(self.aliases[n][0])
+        body_aliases = [x.targets[0].id for x in ast.walk(ast.Module(body=st.body, type_ignores=[])) if isinstance(x, ast.Assign)
+                        and isinstance(x.targets[0], ast.Name) and isinstance(x.value, ast.Subscript) and ast.unparse(x.value.value).endswith(".nodes")]
+        if any(a in asg for a in body_aliases):
+            for x in ast.walk(ast.Module(body=st.body, type_ignores=[])):
+                if isinstance(x, ast.Assign) and isinstance(x.targets[0], ast.Name) and x.targets[0].id in body_aliases and x.targets[0].id in asg:
+                    g = x.value.value.value
+                    if isinstance(g, ast.Name) and g.id not in asg:
+                        asg.append(g.id)
+        defined = [n for n in self.types if self.types[n] != "none"] + (["log"] if "log" not in self.types else [])
+        carried = [n for n in defined if n in asg and n not in [u_[0] for u_ in unpack] and n not in self.gen.log_only
+                   and self.types.get(n, "log") not in ("graph_ro",)]
+        carried = [n for n in carried if n != "log"] + (["log"] if "log" in carried else [])
+        if not carried:
+            raise Untranslatable("a loop that changes nothing")
+        for attempt_pure in (True, False):
+            child = _Imp(self.gen, {n: self.types.get(n, "log") for n in self.types}, self.atoms, self.handles, self.aliases, attempt_pure, self.names)
+            child.types.setdefault("log", "log")
+            saved_names, saved_defs = list(self.names), list(self.gen.defs)
+            for n, ty, _ in unpack:
+                child.bind(n, ty)
+            for n in carried:
+                child.bound.add(n)
+            try:
+                body = child.block(list(st.body), 2, lambda im: im.state_out(carried))
+                break
+            except _NeedsExcept:
+                self.names[:] = saved_names
+                self.gen.defs[:] = saved_defs
+                if not attempt_pure:
+                    raise Untranslatable("loop body %s" % name)
+        if not child.pure:
+            self.partial()
+        params = [n for n in child.refs if n not in carried and n not in [u_[0] for u_ in unpack]]
+        for n in params:
+            self.ref(n)
+        for n in carried:
+            self.ref(n)
+        def lty(n):
+            return _OR_LEAN_TYPE[{"log": "log", "sn": "snfun"}.get(n, self.types.get(n, "log"))]
+        sig = "".join(" (%s : %s)" % (n, lty(n)) for n in params)
+        st_ty = " × ".join(lty(n) for n in carried)
+        head = ""
+        if len(carried) == 1:
+            st_param = "(%s : %s)" % (carried[0], st_ty)
+        elif len(carried) == 2:
+            st_param = "(st : %s)" % st_ty
+            head = "".join("  let %s := st.%d\n" % (n, i + 1) for i, n in enumerate(carried))
+        else:
+            raise Untranslatable("loop state of %d variables" % len(carried))
+        head += "".join("  let %s := %s\n" % (n, src) for n, _, src in unpack if src)
+        ret_ty = st_ty if child.pure else "Except String (%s)" % st_ty
+        self.gen.defs.append("/-- the body of `for %s in %s` -/\ndef %s%s %s (%s : %s) :\n    %s :=\n%s%s\n" % (
+            ast.unparse(st.target), ast.unparse(st.iter), name, sig, st_param, tgt, tgt_ty, ret_ty, head, body))
+        fn = name + "".join(" " + n for n in params)
+        if params:
+            fn = "(%s)" % fn
+        tup = carried[0] if len(carried) == 1 else "(%s)" % ", ".join(carried)
+        for n in carried:
+            self.bind(n, self.types.get(n, "log"))
+        # the names the body introduced are not visible after the loop
+        if child.pure:
+            return "%slet %s := %s.foldl %s %s\n%s" % (pad, tup, it, fn, tup, self.block(rest, ind, fin))
+        return "%smatch %s.foldlM %s %s with\n%s| .error e => .error e\n%s| .ok %s =>\n%s" % (pad, it, fn, tup, pad, pad, tup, self.block(rest, ind, fin))
+
+    def state_out(self, carried):
+        tup = carried[0] if len(carried) == 1 else "(%s)" % ", ".join(carried)
+        return tup if self.pure else ".ok %s" % tup
+
+
+class _OrderRunGen:
+    def __init__(self, lit, log_only=()):
+        self.lit = lit
+        self.log_only = set(log_only)
+        self.defs = []
+        self.did_io = False
+        self.uses_count_sn = False
+        self.csv = None          # (separator, terminator)
+        self.ret = None
+
+    def csv_fields(self, imp, arg):
+        """the argument of a `write` on the CSV handle -> Lean terms of the fields (the line is `sep.join(fields) + end`)"""
+        sep, end = self.csv
+        if isinstance(arg, ast.Constant) and isinstance(arg.value, str):
+            if not arg.value.endswith(end):
+                raise Untranslatable("CSV line %r does not end with %r" % (arg.value, end))
+            return [_or_lstr(x) for x in arg.value[:len(arg.value) - len(end)].split(sep)]
+        pieces, args = _or_format_pieces(arg)
+        if pieces is None or (pieces[0], pieces[-1]) != ("", end) or any(p != sep for p in pieces[1:-1]):
+            raise Untranslatable("CSV line format %s" % ast.unparse(arg))
+        out = []
+        for a in args:
+            v, t = imp.ex(a)
+            out.append("toString " + v if t == "int" else v if t == "str" else (_ for _ in ()).throw(Untranslatable("CSV field of type %s" % t)))
+        return out
+
+
+def _or_format_pieces(arg):
+    """"…{}…{}…".format(a, b) -> (literal pieces, argument nodes)"""
+    if not (isinstance(arg, ast.Call) and isinstance(arg.func, ast.Attribute) and arg.func.attr == "format" and isinstance(arg.func.value, ast.Constant)
+            and isinstance(arg.func.value.value, str) and not arg.keywords):
+        return None, None
+    pieces = arg.func.value.value.split("{}")
+    if len(pieces) != len(arg.args) + 1 or any("{" in p or "}" in p for p in pieces):
+        return None, None
+    return pieces, list(arg.args)
+
+
+def _or_parents(tree):
+    par = {}
+    for n in ast.walk(tree):
+        for c in ast.iter_child_nodes(n):
+            par[c] = n
+    return par
+
+
+def gen_order_run():
+    _, src = src_of("gaftools/cli/order_gfa.py")
+    mod = ast.parse(src)
+    out = []
+
+    def strip(body):
+        return [x for x in body if not (isinstance(x, ast.Expr) and isinstance(x.value, ast.Constant))]
+
+    # ---------------- count_sn(graph, comp)
+    fn = find_func(mod, "count_sn")
+    a = [x.arg for x in fn.args.args]
+    if len(a) != 2:
+        raise Untranslatable("count_sn arity")
+    g = _OrderRunGen("Nat")
+    g.ret = lambda im, st: im.ex(st.value)[0] if im.ex(st.value)[1] == "counts" else (_ for _ in ()).throw(Untranslatable("count_sn returns " + ast.unparse(st.value)))
+    im = _Imp(g, {a[0]: "graph_ro", a[1]: "set", "sn": "snfun"}, {}, pure=True, names=["countSnBody"])
+    body = im.block(strip(fn.body), 2, lambda _im: (_ for _ in ()).throw(Untranslatable("count_sn falls off its end")))
+    out += g.defs
+    out.append("def countSn (sn : V → Option String) (%s : List V) : List (String × Nat) :=\n%s\n" % (a[1], body))
+
+    # ---------------- name_comps(graph, components)
+    fn = find_func(mod, "name_comps")
+    a = [x.arg for x in fn.args.args]
+    if len(a) != 2:
+        raise Untranslatable("name_comps arity")
+    g = _OrderRunGen("Nat")
+
+    def ret_nc(im_, st):
+        v, t = im_.ex(st.value)
+        if t != "comps":
+            raise Untranslatable("name_comps returns " + ast.unparse(st.value))
+        return v if im_.pure else ".ok " + v
+    g.ret = ret_nc
+    im = _Imp(g, {a[0]: "graph_ro", a[1]: "list_set", "sn": "snfun"}, {}, pure=False, names=["nameBody", "voteBody"])
+    body = im.block(strip(fn.body), 2, lambda _im: (_ for _ in ()).throw(Untranslatable("name_comps falls off its end")))
+    if not g.uses_count_sn:
+        raise Untranslatable("name_comps does not call count_sn")
+    out += g.defs
+    out.append("def nameComps (sn : V → Option String) (%s : List (List V)) : Except String (List (String × List V)) :=\n%s\n" % (a[1], body))
+
+    # ---------------- run_order_gfa: the loop over the requested chromosomes
+    fn = find_func(mod, "run_order_gfa")
+    par = _or_parents(fn)
+    top = fn.body
+    loops = [st for st in top if isinstance(st, ast.For) and any(isinstance(n, ast.Call) and ast.unparse(n.func) == "decompose_and_order" for n in ast.walk(st))]
+    loop = _only(loops, "the loop calling decompose_and_order")
+    at = top.index(loop)
+    if not (isinstance(loop.target, ast.Name) and isinstance(loop.iter, ast.Name)):
+        raise Untranslatable("shape of the chromosome loop")
+    order_var = loop.iter.id
+    # `graph`, `components`: where they come from
+    gvar = cvar = None
+    for st in top[:at]:
+        for n in ast.walk(st):
+            if isinstance(n, ast.Assign) and len(n.targets) == 1 and isinstance(n.targets[0], ast.Name) and isinstance(n.value, ast.Call):
+                f = ast.unparse(n.value.func)
+                if f == "GFA":
+                    gvar = n.targets[0].id
+                if f == "name_comps":
+                    if not (len(n.value.args) == 2 and ast.unparse(n.value.args[0]) == gvar):
+                        raise Untranslatable("call of name_comps")
+                    cvar = n.targets[0].id
+                    named_at = n.lineno
+                    inner = n.value.args[1]
+                    src_comps = [m for m in ast.walk(fn) if isinstance(m, ast.Assign) and ast.unparse(m.targets[0]) == ast.unparse(inner)
+                                 and m.lineno < n.lineno]
+                    if not src_comps or ast.unparse(src_comps[-1].value) != "%s.all_components()" % gvar:
+                        raise Untranslatable("name_comps is not applied to graph.all_components()")
+    if gvar is None or cvar is None:
+        raise Untranslatable("graph / components not found")
+    # the dict of named components is used through lookups and its key set only (so its key order is immaterial)
+    for n in ast.walk(fn):
+        if isinstance(n, ast.Name) and n.id == cvar and isinstance(n.ctx, ast.Load) and n.lineno > named_at:
+            p = par.get(n)
+            ok = isinstance(p, ast.Subscript) and p.value is n
+            if isinstance(p, ast.Attribute) and p.attr == "keys" and isinstance(par.get(p), ast.Call):
+                pp = par.get(par.get(p))
+                ok = isinstance(pp, ast.Call) and isinstance(pp.func, ast.Name) and pp.func.id in ("set", "sorted", "len") and pp.args[0] is par.get(p)
+            if isinstance(p, ast.Call) and isinstance(p.func, ast.Name) and p.func.id == "len":
+                ok = True
+            if not ok:
+                raise Untranslatable("the dict of named components is used as %s" % ast.unparse(p)[:60])
+        if isinstance(n, (ast.Assign, ast.AugAssign, ast.Delete)) and n.lineno > named_at:
+            for t in (n.targets if not isinstance(n, ast.AugAssign) else [n.target]):
+                x = t
+                while isinstance(x, (ast.Subscript, ast.Attribute)):
+                    x = x.value
+                if isinstance(x, ast.Name) and x.id == cvar:
+                    raise Untranslatable("the dict of named components is changed after name_comps")
+    # every return of decompose_and_order is five values, all None or none None
+    dfn = find_func(mod, "decompose_and_order")
+    for n in ast.walk(dfn):
+        if isinstance(n, ast.Return):
+            if not (isinstance(n.value, ast.Tuple) and len(n.value.elts) == 5):
+                raise Untranslatable("decompose_and_order returns %s" % (ast.unparse(n.value) if n.value else None))
+            nones = [isinstance(x, ast.Constant) and x.value is None for x in n.value.elts]
+            if any(nones) and not all(nones):
+                raise Untranslatable("decompose_and_order returns a partly-None tuple")
+    # variables that are only ever read by logging calls are not part of the logic
+    log_only = set()
+    stores = {n.id for n in ast.walk(fn) if isinstance(n, ast.Name) and isinstance(n.ctx, ast.Store)}
+    for v in stores:
+        loads = [n for n in ast.walk(fn) if isinstance(n, ast.Name) and n.id == v and isinstance(n.ctx, ast.Load)]
+
+        def in_log(n):
+            while n in par:
+                n = par[n]
+                if _or_is_log_call(n):
+                    return True
+            return False
+        if loads and all(in_log(n) for n in loads):
+            log_only.add(v)
+    g = _OrderRunGen("Int", log_only)
+    # the CSV line format: the one `.format` written to a handle in the loop fixes separator and terminator
+    fmts = []
+    for n in ast.walk(loop):
+        if isinstance(n, ast.Call) and isinstance(n.func, ast.Attribute) and n.func.attr == "write" and len(n.args) == 1:
+            pieces, _args = _or_format_pieces(n.args[0])
+            if pieces is not None and len(pieces) >= 3:
+                fmts.append((pieces[1], pieces[-1]))
+    if len(set(fmts)) != 1 or not fmts[0][0] or not fmts[0][1]:
+        raise Untranslatable("CSV line format: %s" % fmts)
+    g.csv = fmts[0]
+    # the values the carried variables have before the loop
+    asg = _Imp.assigned(loop.body)
+    init = {}
+    for st in top[:at]:
+        if isinstance(st, ast.Assign) and len(st.targets) == 1 and isinstance(st.targets[0], ast.Name) and (st.targets[0].id in asg or st.targets[0].id in _OR_RUNST):
+            init[st.targets[0].id] = st.value
+    for st in top[:at]:
+        for n in ast.walk(st):
+            if n is not st and isinstance(n, (ast.Assign, ast.AugAssign)):
+                for t in (n.targets if isinstance(n, ast.Assign) else [n.target]):
+                    if isinstance(t, ast.Name) and t.id in init and t.id not in (gvar, cvar):
+                        raise Untranslatable("%s is assigned in a nested statement before the loop" % t.id)
+    types = {gvar: "graph", order_var: "list_str", loop.target.id: "str"}
+    atoms = {cvar: ("env.components", "comps"), "outdir": ("env.outdir", "str"), "os.sep": ("env.sep", "str"),
+             "gfa_filename.split(os.sep)[-1].split('.')[0]": ("env.stemDot", "str"), "gfa_filename.split(os.sep)[-1][:-4]": ("env.stemCut", "str")}
+    fnargs = [x.arg for x in fn.args.args]
+    if "outdir" not in fnargs or "gfa_filename" not in fnargs:
+        raise Untranslatable("parameters of run_order_gfa")
+    init_vals = {}
+    for v, e in init.items():
+        if v in log_only or v in (gvar, cvar):
+            continue
+        if isinstance(e, ast.Constant) and isinstance(e.value, int) and not isinstance(e.value, bool):
+            types[v] = "int"
+            init_vals[v] = "(%d : Int)" % e.value
+        elif ast.unparse(e) == "[]":
+            types[v] = "list_str"
+            init_vals[v] = "[]"
+        else:
+            raise Untranslatable("initial value of %s: %s" % (v, ast.unparse(e)))
+    carried = [v for v in _OR_RUNST if v in types or v == "log"]
+    got = sorted([v for v in asg if v in types and v != loop.target.id and v not in log_only] + ["log"])
+    # `graph` is changed through the nodes looked up in it
+    if any(isinstance(n, ast.Subscript) and ast.unparse(n.value) == gvar + ".nodes" for n in ast.walk(loop)) and gvar not in got:
+        got = sorted(got + [gvar])
+    # what the body changes among the variables defined before the loop must be part of the loop state `RunSt`
+    # (a variable of `RunSt` the body does not assign is simply handed on)
+    if any(v not in _OR_RUNST for v in got):
+        raise Untranslatable("variables carried by the chromosome loop: %s" % got)
+    for v in _OR_RUNST[1:-1]:
+        if v not in types:
+            raise Untranslatable("%s is not initialised before the loop" % v)
+    if gvar != "graph":
+        raise Untranslatable("the graph variable is called %s" % gvar)
+    im = _Imp(g, types, atoms, pure=False, names=["nodeBody"])
+    im.types["log"] = "log"
+    for v in _OR_RUNST:
+        im.bound.add(v)
+    fin = lambda _im: ".ok { %s }" % ", ".join("%s := %s" % (v, v) for v in _OR_RUNST)   # noqa: E731
+    body = im.block(list(loop.body), 2, fin)
+    if im.names:
+        raise Untranslatable("no loop over the nodes of a chromosome")
+    extra = [r for r in im.refs if r not in _OR_RUNST and r != loop.target.id]
+    if extra:
+        raise Untranslatable("the chromosome loop reads %s" % extra)
+    out += g.defs
+    out.append("/-- separator and terminator of every line written to the CSV -/\ndef csvSep : String := %s\ndef csvEnd : String := %s\n" % (
+        _or_lstr(g.csv[0]), _or_lstr(g.csv[1])))
+    out.append("/-- the body of `for %s in %s` -/\ndef chromBody (env : Env) (st : RunSt) (%s : String) : Except String RunSt :=\n%s%s\n" % (
+        loop.target.id, order_var, loop.target.id, "".join("  let %s := st.%s\n" % (v, v) for v in _OR_RUNST), body))
+    out.append("/-- the values of the carried variables before the loop -/\ndef initSt (graph : Graph) : RunSt :=\n  { graph := graph, %s, log := [] }\n" % (
+        ", ".join("%s := %s" % (v, init_vals[v]) if v in init_vals else (_ for _ in ()).throw(Untranslatable("%s has no initial value" % v))
+                  for v in _OR_RUNST[1:-1])))
+    out.append("def runLoop (env : Env) (st : RunSt) (%s : List String) : Except String RunSt :=\n  %s.foldlM (chromBody env) st\n" % (order_var, order_var))
+    return _ORDER_RUN_PREAMBLE + "\n" + "\n".join(out) + "\nend Gaftools.Gen.OrderRun\n"
+
+
+GENERATORS["OrderRun"] = gen_order_run
+
+
+# ---------------------------------------------------------------------------------------------------------
 # conversion.to_unstable: the body of `for nd in gaf_contigs`, statement by statement (C01, C02)
 #
 # A small typed translator in continuation-passing style: every statement is translated in the environment left by the
@@ -5228,6 +6090,188 @@ def cmpGaf (al1 al2 : Aln) : Option Int := Gaftools.Sort.cmpGaf al1 al2
 end Gaftools.Gen
 """,
 }
+
+FALLBACK["OrderRun"] = r"""import Gaftools.Model.Order
+/-! FALLBACK (source construct outside the translator's subset): count_sn, name_comps and the loop over the requested chromosomes of
+    run_order_gfa as translated from the source the model was written against -/
+set_option linter.unusedVariables false
+namespace Gaftools.Gen.OrderRun
+open Gaftools.Gfa Gaftools.Algo Gaftools.View Gaftools.Order
+
+/-! ### fixed vocabulary: what the Python objects are in Lean -/
+
+/-- `d[k] += x` on a `defaultdict(int)` (the dict in insertion order) -/
+def dictAdd (d : List (String × Nat)) (k : String) (x : Nat) : List (String × Nat) :=
+  if d.any (·.1 == k) then d.map (fun e => if e.1 == k then (e.1, e.2 + x) else e) else d ++ [(k, 0 + x)]
+
+/-- `d[k] = v` on the dict of named components, kept as a duplicate-free association list whose newest assignment is last
+    (`run_order_gfa` uses this dict only through lookups and its key set; the translator checks that) -/
+def dictPut (d : List (String × List V)) (k : String) (v : List V) : List (String × List V) :=
+  d.filter (·.1 != k) ++ [(k, v)]
+
+/-- `d[k]`, `none` = KeyError -/
+def dictGet (d : List (String × List V)) (k : String) : Option (List V) := (d.find? (·.1 == k)).map (·.2)
+
+/-- `graph.nodes[id].tags[t.name] = (t.ty, t.val)` -/
+def setTag (g : Graph) (id : V) (t : Tag) : Graph :=
+  { g with nodes := g.nodes.map (fun n => if n.id == id then { n with tags := tagSet n.tags t } else n) }
+
+/-- the five values `decompose_and_order` returns when they are not all `None` -/
+structure Dao where
+  scaffold_nodes : List V
+  inside_nodes : List V
+  node_order : List (V × Int × Int)
+  next_bo : Int
+  bubble_count : Int
+deriving Repr
+
+/-- what the loop does to the outside world, in program order -/
+inductive Event where
+  | openW (path : String)
+  | write (path : String) (fields : List String)
+  | writeGfa (path : String) (graph : Graph) (set_of_nodes : List V) (append order_bo : Bool)
+  | close (path : String)
+deriving Repr, DecidableEq
+
+/-- what the loop reads and does not change: the named components, `decompose_and_order` as a function of its four arguments
+    (`.error` = it raises, `.ok none` = the all-`None` tuple), and the pieces of the file names -/
+structure Env where
+  components : List (String × List V)
+  dao : Graph → List V → String → Int → Except String (Option Dao)
+  outdir : String
+  sep : String
+  stemDot : String
+  stemCut : String
+
+/-- the variables the loop over the chromosomes carries from one iteration to the next, and the event log -/
+structure RunSt where
+  graph : Graph
+  bo : Int
+  out_gfa : List String
+  out_csv : List String
+  log : List Event
+deriving Repr, DecidableEq
+
+/-- the body of `for n in comp` -/
+def countSnBody (sn : V → Option String) (counts : List (String × Nat)) (n : V) :
+    List (String × Nat) :=
+  if (!(sn n).isSome) then
+    counts
+  else
+    let counts := dictAdd counts ((sn n).getD "") (1 : Nat)
+    counts
+
+def countSn (sn : V → Option String) (comp : List V) : List (String × Nat) :=
+  let counts : List (String × Nat) := []
+  let counts := comp.foldl (countSnBody sn) counts
+  counts
+
+/-- the body of `for (tag, count) in counts.items()` -/
+def voteBody (st : String × Nat) (item : String × Nat) :
+    String × Nat :=
+  let current_tag := st.1
+  let most_freq := st.2
+  let tag := item.1
+  let count := item.2
+  if decide (most_freq ≤ count) then
+    let (current_tag, most_freq) := (tag, count)
+    (current_tag, most_freq)
+  else
+    (current_tag, most_freq)
+
+/-- the body of `for comp in components` -/
+def nameBody (sn : V → Option String) (st : List (String × List V) × String) (comp : List V) :
+    Except String (List (String × List V) × String) :=
+  let named_comps := st.1
+  let current_tag := st.2
+  let counts := countSn sn comp
+  let most_freq := (0 : Nat)
+  let (current_tag, most_freq) := counts.foldl voteBody (current_tag, most_freq)
+  if (current_tag == "") then
+    .error "ValueError"
+  else
+    let named_comps := dictPut named_comps current_tag comp
+    .ok (named_comps, current_tag)
+
+def nameComps (sn : V → Option String) (components : List (List V)) : Except String (List (String × List V)) :=
+  let named_comps : List (String × List V) := []
+  let current_tag := ""
+  match components.foldlM (nameBody sn) (named_comps, current_tag) with
+  | .error e => .error e
+  | .ok (named_comps, current_tag) =>
+  .ok named_comps
+
+/-- the body of `for node_name in sorted(component_nodes)` -/
+def nodeBody (node_order : List (V × Int × Int)) (scaffold_nodes : List V) (inside_nodes : List V) (csv_file : String) (st : Graph × List Event) (node_name : V) :
+    Except String (Graph × List Event) :=
+  let graph := st.1
+  let log := st.2
+  match graph.find node_name with
+  | none => .error "KeyError"
+  | some node =>
+  match lookup node_name node_order with
+  | none => .error "KeyError"
+  | some (bo_tag, no_tag) =>
+  let graph := setTag graph node_name ⟨"BO", "i", toString bo_tag⟩
+  let node : Node := { node with tags := tagSet node.tags ⟨"BO", "i", toString bo_tag⟩ }
+  let graph := setTag graph node_name ⟨"NO", "i", toString no_tag⟩
+  let node : Node := { node with tags := tagSet node.tags ⟨"NO", "i", toString no_tag⟩ }
+  let color := if (scaffold_nodes.contains node_name) then "orange" else if (inside_nodes.contains node_name) then "blue" else "gray"
+  let sn_tag := if (tagVal node.tags "SN").isSome then ((tagVal node.tags "SN").getD "") else "NA"
+  let so_tag := if (tagVal node.tags "SO").isSome then ((tagVal node.tags "SO").getD "") else "NA"
+  let log := log ++ [Event.write csv_file [node_name, color, sn_tag, so_tag, toString bo_tag, toString no_tag]]
+  .ok (graph, log)
+
+/-- separator and terminator of every line written to the CSV -/
+def csvSep : String := ","
+def csvEnd : String := "\n"
+
+/-- the body of `for chromosome in chromosome_order` -/
+def chromBody (env : Env) (st : RunSt) (chromosome : String) : Except String RunSt :=
+  let graph := st.graph
+  let bo := st.bo
+  let out_gfa := st.out_gfa
+  let out_csv := st.out_csv
+  let log := st.log
+  match dictGet env.components chromosome with
+  | none => .error "KeyError"
+  | some component_nodes =>
+  match env.dao graph component_nodes chromosome bo with
+  | .error e => .error e
+  | .ok none =>
+    .ok { graph := graph, bo := bo, out_gfa := out_gfa, out_csv := out_csv, log := log }
+  | .ok (some r) =>
+    let scaffold_nodes := r.scaffold_nodes
+    let inside_nodes := r.inside_nodes
+    let node_order := r.node_order
+    let next_bo := r.next_bo
+    let bubble_count := r.bubble_count
+    if (!scaffold_nodes.isEmpty) then
+      let bo := next_bo
+      let f_gfa := env.outdir ++ env.sep ++ env.stemDot ++ "-" ++ chromosome ++ ".gfa"
+      let out_gfa := out_gfa ++ [f_gfa]
+      let csv_file := env.outdir ++ env.sep ++ env.stemCut ++ "-" ++ chromosome ++ ".csv"
+      let out_csv := out_csv ++ [csv_file]
+      let log := log ++ [Event.openW csv_file]
+      let log := log ++ [Event.write csv_file ["Name", "Color", "SN", "SO", "BO", "NO"]]
+      match (sortStrings component_nodes).foldlM (nodeBody node_order scaffold_nodes inside_nodes csv_file) (graph, log) with
+      | .error e => .error e
+      | .ok (graph, log) =>
+      let log := log ++ [Event.writeGfa f_gfa graph component_nodes false true]
+      let log := log ++ [Event.close csv_file]
+      .ok { graph := graph, bo := bo, out_gfa := out_gfa, out_csv := out_csv, log := log }
+    else
+      .ok { graph := graph, bo := bo, out_gfa := out_gfa, out_csv := out_csv, log := log }
+
+/-- the values of the carried variables before the loop -/
+def initSt (graph : Graph) : RunSt :=
+  { graph := graph, bo := (0 : Int), out_gfa := [], out_csv := [], log := [] }
+
+def runLoop (env : Env) (st : RunSt) (chromosome_order : List String) : Except String RunSt :=
+  chromosome_order.foldlM (chromBody env) st
+
+end Gaftools.Gen.OrderRun
+"""
 
 FALLBACK["PathWalk"] = PW_PREAMBLE % "FALLBACK (source construct outside the translator's subset): path_exists, extract_path, rev_comp and find_path.run\n"\
     "    as translated from the source the model was written for" + '''
